@@ -121,7 +121,7 @@ SIGS['C'] = {
     'unknown': [],
     'cs_args': ['alpha'],
     'verb': False,
-    'accents': ["'", '^', 'c', '~'],
+    'accents': ["'", '~'],
 }
 
 DEVIATIONS = [' ', '\n', '%c\n']
@@ -655,6 +655,10 @@ class Grammar(object):
                 out.append((lambda f, o=o: ('Math', o, f[0]), [(True, False, True)]))
         for name, slots in sorted(sig['macros'].items()):
             if self.calls is not None and name not in self.calls:
+                continue
+            if self.inert_verbatim and any(sl['kind'] == 'vl' for sl in slots):
+                # fault documents: anything injected right after a \verb-like macro name becomes its verbatim
+                # delimiter - that position is inside verbatim syntax, and the macro is left out
                 continue
             menus = self.arg_value_menus(slots)
             for combo in itertools.product(*menus):
